@@ -3,6 +3,7 @@ package main
 // Symbolic interpreter over go/ssa (structure follows x/tools/go/ssa/interp).
 
 import (
+	"unsafe"
 	"fmt"
 	"go/token"
 	"go/types"
@@ -1102,6 +1103,51 @@ func (in *Interp) callBuiltin(caller *frame, pos token.Pos, fn *ssa.Builtin, arg
 		return nil
 	case "print", "println":
 		return nil
+	case "SliceData": // unsafe.SliceData: only as the argument of unsafe.String (zero-copy []byte -> string)
+		return UPtr{p: args[0]}
+	case "StringData":
+		return UPtr{p: args[0]}
+	case "String": // unsafe.String(unsafe.SliceData(b), n)
+		if up, ok := args[0].(UPtr); ok {
+			n, okn := args[1].(*Term)
+			if sl, oks := up.p.(Slice); oks && okn && n.op == OpConst {
+				if int(n.c) == 0 {
+					return ""
+				}
+				return mkStr(bytesOfSlice(Slice{arr: sl.arr, off: sl.off, len: int(n.c), cap: sl.cap, opq: sl.opq}))
+			}
+		}
+		if p, ok := args[0].(*Value); ok {
+			if p == nil {
+				return ""
+			}
+			// unsafe.String(&b[0], len(b)): p points at an element of a backing []Value; the n cells
+			// from there on are the bytes
+			if n, okn := args[1].(*Term); okn && n.op == OpConst {
+				cells := unsafe.Slice(p, int(n.c))
+				bs := make([]*Term, len(cells))
+				for i, c := range cells {
+					t, isT := c.(*Term)
+					if !isT {
+						unsup("unsafe.String over non-byte cells")
+					}
+					bs[i] = t
+				}
+				return mkStr(bs)
+			}
+		}
+		unsup("unsafe.String of %T", args[0])
+	case "Slice": // unsafe.Slice(unsafe.StringData(s), n)
+		if up, ok := args[0].(UPtr); ok {
+			n, okn := args[1].(*Term)
+			if okn && n.op == OpConst {
+				switch sv := up.p.(type) {
+				case string, *SymStr:
+					return sliceOfBytes(strBytes(sv)[:int(n.c)])
+				}
+			}
+		}
+		unsup("unsafe.Slice of %T", args[0])
 	case "len":
 		switch x := args[0].(type) {
 		case string, *SymStr:
